@@ -209,6 +209,31 @@ def reader_checks(ck, prog, ev, r, log, label, factor, out_dtype, sshape, sr_exp
         else:
             ck.same("R2", prog.func("BaseReader._read_data").where, "lazy read " + tag, "is built with dask.array.from_delayed", False, found="no from_delayed call")
         ck.eq("R2", f_dread.where, "dask_read start_time " + tag, "same time stamp as the eager read", sd.attrs["_start_time"].expr, s1.attrs["_start_time"].expr)
+    zero_length_reads(ck, prog, ev, r, tag)
+
+
+def zero_length_reads(ck, prog, ev0, r, tag, rule="R2"):
+    """n = 0 is a request inside [0, len]: both the eager and the lazy read hand back a signal of zero samples."""
+    f_read, f_dread = prog.func("BaseReader.read"), prog.func("BaseReader.dask_read")
+    o = sp.Symbol("o", integer=True)
+    for fi, what in ((f_read, "read(o, 0)"), (f_dread, "dask_read(o, 0)")):
+        ev = Evaluator(prog)
+        ev.file_model = ev0.file_model
+        try:
+            s0 = ev.call(fi, [Num(o), Num(0)], {}, self_val=r)
+        except Raised as e:
+            if e.exc_name in ("ValueError", "OutOfBoundsError") and getattr(e, "guard", False):
+                continue
+            ck.same(rule, fi.where, f"{what} {tag}", "a zero-length read inside the stream returns a signal of zero samples (lazy as well as eager)",
+                    False, found=str(e)[:140], nontrivial=True)
+            continue
+        except Unsupported as e:
+            ck.unk(rule, fi.where, f"{what} {tag}", "evaluates", str(e)[:200])
+            continue
+        d0 = s0.attrs.get("_data") if isinstance(s0, ObjV) else None
+        ok0 = isinstance(d0, Num) and d0.shape is not None and sp.simplify(d0.shape[0]) == 0
+        ck.same(rule, fi.where, f"{what} {tag}", "a zero-length read inside the stream returns a signal of zero samples (lazy as well as eager)",
+                ok0, found=str(getattr(d0, "shape", d0))[:80], nontrivial=True)
 
 
 def terms_eq(a, b):
